@@ -321,16 +321,16 @@ fn walk_drop<'tcx>(
             if def.is_union() {
                 return;
             }
-            if !def.did().is_local() {
-                // foreign container (Vec, RefCell, SlotMap, Option...): its drop glue drops values of its
-                // type arguments (conservative: every type argument is treated as owned)
+            if !def.did().is_local() && def.destructor(tcx).is_some() {
+                // foreign type with its own Drop impl (Vec, Rc, RawTable, Slot...): it may drop values of its type
+                // arguments through raw pointers that the field types do not show (conservative: all are owned)
                 for a in args.iter() {
                     if let GenericArgKind::Type(t) = a.kind() {
                         walk_drop(tcx, t, te, dtors, has_param, seen, depth + 1);
                     }
                 }
-                return;
             }
+            // field types are available for foreign ADTs too (RefMut<'_, T> holds a NonNull<T>: owns nothing)
             for v in def.variants().iter() {
                 for f in v.fields.iter() {
                     let fty = f.ty(tcx, args);
